@@ -219,7 +219,7 @@ func zzC09Scan(mode int) {
 			}
 		} else if r == 0 {
 			rda.kind[r] = zzsym.Pick("fetch", zzFetchKinds)
-			nb = zzsym.Pick("nblobs", 2)
+			nb = zzsym.Pick("nblobs", zzC09MaxBlobs+1)
 			if k := rda.kind[r]; false && k == zzFetchErrOnce {
 				rda.errs[r] = allErrs[zzsym.Pick("err", len(allErrs))]
 				if zzsym.Bool("errwrapped") {
@@ -228,7 +228,7 @@ func zzC09Scan(mode int) {
 			}
 		} else {
 			rda.kind[r] = []int{zzFetchOK, zzFetchNotFound, zzFetchFuture, zzFetchErrOnce}[zzsym.Pick("fetch", 4)]
-			nb = zzsym.Pick("nblobs", 2)
+			nb = zzsym.Pick("nblobs", zzC09MaxBlobs+1)
 		}
 		for i := 0; i < nb; i++ {
 			k := zzBlobHeader1
